@@ -255,7 +255,10 @@ func gen(gg *hx.Gen) {
 		ct := realSeal(x, key, nonce, pt, ad)
 		emit3(g, "open x=%d key=%s nonce=%s ad=%s ct=%s dst=- cap=0", x, hx.Hex(key), hx.Hex(nonce), hx.Hex(ad), hx.Hex(ct))
 	}
-	one := func(L, adLen, x int) {
+	// place: "sep" = dst, input and ad in separate allocations; "inplace" = dst is input[:0] (capacity for the
+	// result behind it); "offset" = dst is a non-empty prefix of one buffer and the input follows it directly
+	// (out and input start at the same address — the exact overlap the API allows). op: 0 = random, 1 = seal, 2 = open.
+	oneAt := func(L, adLen, x int, place string, op int) {
 		key := r.Bytes(32)
 		nonce := r.Bytes(12 + 12*x)
 		ad := r.Bytes(adLen)
@@ -270,10 +273,21 @@ func gen(gg *hx.Gen) {
 				pt[i] = 0
 			}
 		}
-		if r.Chance(2, 3) {
-			dst, spare := mkDst(r, g, L+16)
-			emit3(g, "seal x=%d key=%s nonce=%s ad=%s pt=%s dst=%s cap=%d", x, hx.Hex(key), hx.Hex(nonce), hx.Hex(ad), hx.Hex(pt), hx.Hex(dst), spare)
+		g.Stat("place." + place)
+		placed := func(need int) (dst []byte, spare int) {
+			switch place {
+			case "inplace":
+				return nil, r.Intn(3) * 8
+			case "offset":
+				return r.Bytes(r.Range(1, 20)), r.Intn(3) * 8
+			}
+			return mkDst(r, g, need)
+		}
+		if op == 1 || (op == 0 && r.Chance(2, 3)) {
+			dst, spare := placed(L + 16)
+			emit3(g, "seal x=%d key=%s nonce=%s ad=%s pt=%s dst=%s cap=%d place=%s", x, hx.Hex(key), hx.Hex(nonce), hx.Hex(ad), hx.Hex(pt), hx.Hex(dst), spare, place)
 			g.Stat("seal")
+			g.Stat("seal." + place)
 		} else {
 			ct := realSeal(x, key, nonce, pt, ad)
 			what := r.Intn(12)
@@ -289,9 +303,27 @@ func gen(gg *hx.Gen) {
 			default:
 				g.Stat("open.valid")
 			}
-			dst, spare := mkDst(r, g, L)
-			emit3(g, "open x=%d key=%s nonce=%s ad=%s ct=%s dst=%s cap=%d", x, hx.Hex(key), hx.Hex(nonce), hx.Hex(ad), hx.Hex(ct), hx.Hex(dst), spare)
+			g.Stat("open." + place)
+			dst, spare := placed(L)
+			emit3(g, "open x=%d key=%s nonce=%s ad=%s ct=%s dst=%s cap=%d place=%s", x, hx.Hex(key), hx.Hex(nonce), hx.Hex(ad), hx.Hex(ct), hx.Hex(dst), spare, place)
 		}
+	}
+	one := func(L, adLen, x int) {
+		oneAt(L, adLen, x, hx.Pick(r, []string{"sep", "sep", "inplace", "offset"}), 0)
+	}
+	// every plaintext length 0..1100 IN PLACE on every path: Open for all of them (the assembly decrypts while it
+	// authenticates, so the order of load / hash / store matters only when out aliases the ciphertext),
+	// Seal for the short ones and a random half of the rest
+	for L := 0; L <= 1100; L++ {
+		pl := "inplace"
+		if r.Chance(1, 3) {
+			pl = "offset"
+		}
+		oneAt(L, hx.Pick(r, adLens), r.Intn(4)/3, pl, 2)
+		if L <= 320 || r.Bool() {
+			oneAt(L, hx.Pick(r, adLens), r.Intn(4)/3, hx.Pick(r, []string{"inplace", "offset"}), 1)
+		}
+		g.Stat("inplace.every-0..1100")
 	}
 	for _, L := range lens(g) {
 		x := 0
@@ -421,7 +453,14 @@ func execOne(o hx.Op, ss *sess) string {
 	ss.begin()
 	x := o.Int("x")
 	key, nonce, ad := ss.In("key", o.Hex("key")), ss.In("nonce", o.Hex("nonce")), ss.In("ad", o.Hex("ad"))
-	dst := ss.Out("dst", o.Hex("dst"), o.Int("cap"), 0xaa)
+	joint := o.Has("place") && o.Str("place") != "sep"
+	// buffers for dst and the input: separate, or one buffer with the input right behind dst (in place)
+	place := func(inName string, input []byte, resultExtra int) (dst, in []byte) {
+		if joint {
+			return ss.Joint("io", o.Hex("dst"), input, resultExtra+o.Int("cap"), 0xaa)
+		}
+		return ss.Out("dst", o.Hex("dst"), o.Int("cap"), 0xaa), ss.In(inName, input)
+	}
 	path := o.Str("path")
 	cp.VerifSetAVX2(origAVX2 && path != "off")
 	defer cp.VerifSetAVX2(origAVX2)
@@ -440,7 +479,7 @@ func execOne(o hx.Op, ss *sess) string {
 	}
 	switch o.Cmd {
 	case "seal":
-		pt := ss.In("pt", o.Hex("pt"))
+		dst, pt := place("pt", o.Hex("pt"), 16)
 		var ret []byte
 		if path == "gen" && nonceOK {
 			ret = cp.VerifSealGeneric(gkey, dst, gnonce, pt, ad)
@@ -449,6 +488,7 @@ func execOne(o hx.Op, ss *sess) string {
 		}
 		return hx.Hex(ret) + ss.mutated()
 	case "kat":
+		dst := ss.Out("dst", o.Hex("dst"), o.Int("cap"), 0xaa)
 		pt, out := ss.In("pt", o.Hex("pt")), ss.In("out", o.Hex("out"))
 		sealed := a.Seal(dst, nonce, pt, ad)
 		opened, err := a.Open(dst, nonce, out, ad)
@@ -457,7 +497,7 @@ func execOne(o hx.Op, ss *sess) string {
 		}
 		return "kat-mismatch"
 	case "open":
-		ct := ss.In("ct", o.Hex("ct"))
+		dst, ct := place("ct", o.Hex("ct"), 0)
 		var ret []byte
 		if path == "gen" && nonceOK && len(ct) >= 16 {
 			ret, err = cp.VerifOpenGeneric(gkey, dst, gnonce, ct, ad)
